@@ -5,7 +5,7 @@
    the model keeps one association list and implements dict get / set / del on it.
    Randomness (create_id: sha256 over 32 random bytes) enters as the [fresh] field of the
    issuing operations: the value the real code generated. *)
-From Coq Require Import String Ascii List Bool ZArith.
+From Coq Require Import String Ascii List Bool ZArith NArith.
 From Verif Require Import Base.Str Base.Percent.
 Import ListNotations.
 Open Scope string_scope.
@@ -13,6 +13,60 @@ Open Scope string_scope.
 Definition NF_PERSISTENT := "urn:oasis:names:tc:SAML:2.0:nameid-format:persistent".
 Definition NF_TRANSIENT := "urn:oasis:names:tc:SAML:2.0:nameid-format:transient".
 Definition NF_EMAIL := "urn:oasis:names:tc:SAML:1.1:nameid-format:emailAddress".
+
+(* ------------------------------------------------------------------ quote / unquote
+   urllib.parse.quote(s) (safe='/') and unquote(s).  Base/Percent.v defines them with unary
+   arithmetic on character codes, which is slow under vm_compute; these are the same functions
+   computed on the bits / binary code of a character (Proofs.v: quote_f s = Percent.quote s and
+   unquote_f s = Percent.unquote s for all s). *)
+Definition ncode (c : ascii) : N := N_of_ascii c.
+
+Definition between (a n b : N) : bool := (a <=? n)%N && (n <=? b)%N.
+
+Definition safe_f (c : ascii) : bool :=
+  let n := ncode c in
+  between 65 n 90 || between 97 n 122 || between 48 n 57
+  || (n =? 95)%N || (n =? 46)%N || (n =? 45)%N || (n =? 126)%N || (n =? 47)%N.
+
+Definition hexnib (b0 b1 b2 b3 : bool) : ascii :=
+  let n := ncode (Ascii b0 b1 b2 b3 false false false false) in
+  ascii_of_N (if (n <? 10)%N then 48 + n else 55 + n).
+
+Definition quote_char_f (c : ascii) : string :=
+  if safe_f c then String c EmptyString
+  else match c with
+       | Ascii b0 b1 b2 b3 b4 b5 b6 b7 =>
+           String "%"%char (String (hexnib b4 b5 b6 b7) (String (hexnib b0 b1 b2 b3) EmptyString))
+       end.
+
+Fixpoint quote_f (s : string) : string :=
+  match s with
+  | EmptyString => EmptyString
+  | String c r => quote_char_f c ++ quote_f r
+  end.
+
+Definition hexval_f (c : ascii) : option N :=
+  let n := ncode c in
+  if between 48 n 57 then Some (n - 48)%N
+  else if between 65 n 70 then Some (n - 55)%N
+  else if between 97 n 102 then Some (n - 87)%N
+  else None.
+
+Fixpoint unquote_f (s : string) : string :=
+  match s with
+  | EmptyString => EmptyString
+  | String c r =>
+      if Ascii.eqb c "%"%char then
+        match r with
+        | String a (String b r2) =>
+            match hexval_f a, hexval_f b with
+            | Some x, Some y => String (ascii_of_N (16 * x + y)) (unquote_f r2)
+            | _, _ => String c (unquote_f r)
+            end
+        | _ => String c (unquote_f r)
+        end
+      else String c (unquote_f r)
+  end.
 
 (* ------------------------------------------------------------------ NameID, code, decode *)
 
@@ -28,7 +82,7 @@ Definition truthy (o : option string) : bool :=
 
 (* code(): "if val: _res.append(f'{i}={quote(val)}')"; quote = urllib.parse.quote, safe='/' *)
 Definition field_code (i : string) (v : option string) : list string :=
-  if truthy v then match v with Some s => [i ++ "=" ++ quote s] | None => [] end else [].
+  if truthy v then match v with Some s => [i ++ "=" ++ quote_f s] | None => [] end else [].
 
 Definition code_parts (n : nameid) : list string :=
   field_code "0" (nq n) ++ field_code "1" (spq n) ++ field_code "2" (fmt n)
@@ -39,8 +93,8 @@ Definition code (n : nameid) : string := join "," (code_parts n).
 (* int(str) for ASCII input: optional surrounding whitespace, optional sign, decimal digits with
    single underscores between digits.  The value saturates at 100 (only -5..4 matter). *)
 Definition digit_val (c : ascii) : option Z :=
-  let n := Str.code c in
-  if ((48 <=? n) && (n <=? 57))%nat then Some (Z.of_nat (n - 48)) else None.
+  let n := ncode c in
+  if between 48 n 57 then Some (Z.of_N (n - 48)) else None.
 
 Definition is_underscore (c : ascii) : bool := Ascii.eqb c "_"%char.
 
@@ -71,8 +125,26 @@ Definition int_unsigned (s : string) : option Z :=
   | EmptyString => None
   end.
 
+(* C isspace(): what int() skips around an ASCII literal (not the wider str.strip() set) *)
+Definition is_cspace (c : ascii) : bool :=
+  let n := ncode c in between 9 n 13 || (n =? 32)%N.
+
+Fixpoint lstrip_c (s : string) : string :=
+  match s with
+  | EmptyString => EmptyString
+  | String c r => if is_cspace c then lstrip_c r else s
+  end.
+
+Fixpoint rstrip_c (s : string) : string :=
+  match s with
+  | EmptyString => EmptyString
+  | String c r =>
+      let r' := rstrip_c r in
+      if is_cspace c && is_empty r' then EmptyString else String c r'
+  end.
+
 Definition py_int (s : string) : option Z :=
-  match strip s with
+  match rstrip_c (lstrip_c s) with
   | String c r =>
       if Ascii.eqb c "-"%char then option_map Z.opp (int_unsigned r)
       else if Ascii.eqb c "+"%char then int_unsigned r
@@ -103,7 +175,7 @@ Fixpoint decode_parts (ps : list string) (n : nameid) : option nameid :=
       match split_on eq_char p with
       | [_] => decode_parts r n
       | [i; v] =>
-          decode_parts r (match py_int i with Some z => set_field z (unquote v) n | None => n end)
+          decode_parts r (match py_int i with Some z => set_field z (unquote_f v) n | None => n end)
       | _ => None
       end
   end.
